@@ -131,12 +131,20 @@ def run(ctx):
 
     # ---- observations outside the statement of C09 (reported, never a verdict unless asked for)
     obs = r["observations"]
-    strict = bool(os.environ.get("VERIF_C09_STRICT_LEXICAL"))
-    if strict:
+    # A system.local / system.peers read that is forwarded because a CQL comment hides it from the proxy's lexer breaks
+    # "reads of system.local/system.peers are never forwarded": reported, one key per comment form (set
+    # VERIF_C09_LEXICAL=off to only record the observation).
+    if os.environ.get("VERIF_C09_LEXICAL") != "off":
+        byform = {}
         for g in obs["groups"]:
-            ex = g["examples"][0]
-            ctx.violation("intercept:lexical=%s,%s,want=%s,got=%s" % (g["op"], base(g), g["want"], g["got"]),
-                          "IsQueryHandled(%r, %r) says %s, specification %s" % (ex["ks"], ex["text"], g["got"], g["want"]), replay=g)
+            if g["want"] == "local" and g["got"] == "forward":
+                byform.setdefault(g["op"], []).append(g)
+        for form, gs in sorted(byform.items()):
+            ex = gs[0]["examples"][0]
+            ctx.violation("intercept:lexical=%s:system-table-select-forwarded" % form,
+                          "a SELECT on a system table containing a %s is not recognised and is forwarded to the backend, e.g. "
+                          "IsQueryHandled(%r, %r)" % (form.replace("_", " "), ex["ks"], ex["text"]),
+                          replay={"form": form, "groups": gs[:6]})
 
     # ---- vacuity: every class of interest was really exercised
     need = [(cc, qc, tc) for cc in ("none", "system", "user") for qc in ("absent", "system", "user")
@@ -195,7 +203,7 @@ def run(ctx):
                                       for g in obs["groups"]],
             "lexical_end_to_end": obs["e2e"],
             "intercepted_but_answered_doesnt_exist": {"count": e2e["doesnt_exist"], "examples": e2e["doesnt_exist_examples"]},
-            "promoted_to_violations": strict,
+            "promoted_to_violations": os.environ.get("VERIF_C09_LEXICAL") != "off",
         },
     })
     if missing:
